@@ -59,6 +59,12 @@ unsafe impl Sync for SyncOnly {}
 type FnPtr<T> = fn(&T) -> u32;
 type BoxSend<T> = Box<dyn FnMut(&T) -> u32 + Send>;
 type BoxLocal<T> = Box<dyn FnMut(&T) -> u32>;
+/// closures whose *return value* is not Send / not Sync: the handle stores the closure, never a
+/// returned value, so this must not change the answer
+type FnPtrRetRc<T> = fn(&T) -> Rc<u32>;
+type FnPtrRetCell<T> = fn(&T) -> Cell<u32>;
+type BoxSendRetRc<T> = Box<dyn FnMut(&T) -> Rc<u32> + Send>;
+type BoxLocalRetRc<T> = Box<dyn FnMut(&T) -> Rc<u32>>;
 
 struct Row {
     ty: &'static str,
@@ -111,6 +117,10 @@ pub fn run(shard: &mut Shard) {
     row!("MPMCFutUniReceiver", "u32 (Send+Sync)", "Box<dyn FnMut + Send>", mq::MPMCFutUniReceiver<u32, BoxSend<u32>, u32>, true);
     row!("MPMCFutUniReceiver", "u32 (Send+Sync)", "Box<dyn FnMut> (!Send)", mq::MPMCFutUniReceiver<u32, BoxLocal<u32>, u32>, false);
     row!("MPMCFutUniReceiver", "Cell<u32> (Send,!Sync)", "fn pointer", mq::MPMCFutUniReceiver<u32, FnPtr<SendOnly>, SendOnly>, true);
+    row!("MPMCFutUniReceiver", "u32 (Send+Sync)", "fn pointer returning Rc (return type !Send)", mq::MPMCFutUniReceiver<Rc<u32>, FnPtrRetRc<u32>, u32>, true);
+    row!("MPMCFutUniReceiver", "u32 (Send+Sync)", "fn pointer returning Cell (return type !Sync)", mq::MPMCFutUniReceiver<Cell<u32>, FnPtrRetCell<u32>, u32>, true);
+    row!("MPMCFutUniReceiver", "Cell<u32> (Send,!Sync)", "Box<dyn FnMut + Send> returning Rc", mq::MPMCFutUniReceiver<Rc<u32>, BoxSendRetRc<SendOnly>, SendOnly>, true);
+    row!("MPMCFutUniReceiver", "u32 (Send+Sync)", "Box<dyn FnMut> (!Send) returning Rc", mq::MPMCFutUniReceiver<Rc<u32>, BoxLocalRetRc<u32>, u32>, false);
     row!("MPMCFutUniReceiver", "Rc<u32> (!Send,!Sync)", "fn pointer", mq::MPMCFutUniReceiver<u32, FnPtr<Neither>, Neither>, false);
     row!("MPMCFutUniReceiver", "SyncOnly (!Send,Sync)", "fn pointer", mq::MPMCFutUniReceiver<u32, FnPtr<SyncOnly>, SyncOnly>, false);
     row!("MPMCFutUniReceiver", "Rc<u32> (!Send,!Sync)", "Box<dyn FnMut> (!Send)", mq::MPMCFutUniReceiver<u32, BoxLocal<Neither>, Neither>, false);
@@ -138,6 +148,10 @@ pub fn run(shard: &mut Shard) {
     row!("BroadcastFutUniReceiver", "u32 (Send+Sync)", "Box<dyn FnMut + Send>", mq::BroadcastFutUniReceiver<u32, BoxSend<u32>, u32>, true);
     row!("BroadcastFutUniReceiver", "u32 (Send+Sync)", "Box<dyn FnMut> (!Send)", mq::BroadcastFutUniReceiver<u32, BoxLocal<u32>, u32>, false);
     row!("BroadcastFutUniReceiver", "SyncOnly (!Send,Sync)", "fn pointer", mq::BroadcastFutUniReceiver<u32, FnPtr<SyncOnly>, SyncOnly>, false);
+    row!("BroadcastFutUniReceiver", "u32 (Send+Sync)", "fn pointer returning Rc (return type !Send)", mq::BroadcastFutUniReceiver<Rc<u32>, FnPtrRetRc<u32>, u32>, true);
+    row!("BroadcastFutUniReceiver", "u32 (Send+Sync)", "fn pointer returning Cell (return type !Sync)", mq::BroadcastFutUniReceiver<Cell<u32>, FnPtrRetCell<u32>, u32>, true);
+    row!("BroadcastFutUniReceiver", "u32 (Send+Sync)", "Box<dyn FnMut + Send> returning Rc", mq::BroadcastFutUniReceiver<Rc<u32>, BoxSendRetRc<u32>, u32>, true);
+    row!("BroadcastFutUniReceiver", "u32 (Send+Sync)", "Box<dyn FnMut> (!Send) returning Rc", mq::BroadcastFutUniReceiver<Rc<u32>, BoxLocalRetRc<u32>, u32>, false);
     unnameable.push("BroadcastFutUniReceiver<_, _, Cell<u32>> / <Rc<u32>>: the type itself requires T: Sync".to_string());
 
     let mut table = Vec::new();
